@@ -22,7 +22,7 @@ pub fn run(tier: Tier) -> i32 {
     let corpus = labels::corpus();
     let mut utts: Vec<Vec<String>> = vec![vec![corpus[41].clone()], corpus[40..43].to_vec()];
     let n_short = utts.len();
-    let stride = tier.pick(61usize, 7usize);
+    let stride = tier.pick(31usize, 3usize);
     for s in ((seed() as usize % stride)..corpus.len() - 8).step_by(stride) {
         utts.push(corpus[s..s + 8].to_vec());
     }
@@ -59,7 +59,7 @@ pub fn run(tier: Tier) -> i32 {
             }
         }
     }
-    par_for(jobs.len(), 1, |j| {
+    rep.par_for(jobs.len(), 1, "C15 part 1", |j| {
         let (vi, ui, other) = &jobs[j];
         let v = &voices[*vi];
         let u = &utts[*ui];
